@@ -365,7 +365,8 @@ class SQLiteOrchestrator(BaseOrchestrator):
 
         # Order by timestamp descending (newest first) for consistent pagination
         sql += " ORDER BY status_timestamp DESC LIMIT ? OFFSET ?"
-        params.extend([limit, offset])
+        # a negative LIMIT means "no limit" to SQLite: a page never holds more than max(limit, 0) ids
+        params.extend([max(limit, 0), max(offset, 0)])
 
         with sqlite_conn(self.sqlite_db_path) as conn:
             cursor = conn.execute(sql, tuple(params))
